@@ -8,7 +8,7 @@ out=.work/seed_results_$tier.txt
 for s in $seeds; do
   pid=$(python3 -c "import json;print(json.load(open('seeded/$s/meta.json'))['property'])")
   if ! git -C /repo diff --quiet; then echo "/repo dirty, abort"; exit 1; fi
-  git -C /repo apply seeded/$s/patch.diff || { echo "$s: patch does not apply" | tee -a $out; continue; }
+  git -C /repo apply /verif/seeded/$s/patch.diff || { echo "$s: patch does not apply" | tee -a $out; continue; }
   st=$(date +%s)
   ./check $pid --tier $tier > .work/seed_$s.$tier.log 2>&1; rc=$?
   en=$(date +%s)
